@@ -112,6 +112,17 @@ fn add_builder(b: &mut RoutesBuilder, i: usize, h: H) {
 /// construction style: 0 = Routes::default().add_service..., 1 = RoutesBuilder, 2 = Routes::new(first).add_service...,
 /// 3 = Routes::builder() with some services wrapped by an interceptor via path 0
 pub fn build_routes(order: &[usize], style: u64, wrap_mask: u32, h: &H) -> Routes {
+    let r = build_routes_plain(order, style & 7, wrap_mask, h);
+    match style >> 3 {
+        // the conversions tonic offers for mixing with axum and for continuing to build
+        1 => Routes::from(r.into_axum_router()).prepare(),
+        2 => RoutesBuilder::from(r).routes().prepare(),
+        3 => RoutesBuilder::from(r.into_axum_router()).routes().prepare(),
+        _ => r,
+    }
+}
+
+fn build_routes_plain(order: &[usize], style: u64, wrap_mask: u32, h: &H) -> Routes {
     match style {
         1 => {
             let mut b = Routes::builder();
@@ -303,7 +314,7 @@ pub fn run(cfg: &RunCfg) -> Ctx {
     all.floor("h2.handler_runs", 10);
     all.floor("h2.unimplemented", 10);
     for k in ["path.exact", "path.case-flip", "path.method-extended", "path.service-extended", "path.extra-segment", "path.empty-segment", "path.middle-segment", "path.trailing-slash", "path.percent-method", "path.cross-method", "path.query",
-        "style.0", "style.1", "style.2", "observed.handler_runs", "observed.unimplemented"] {
+        "style.0", "style.1", "style.2", "style.converted", "observed.handler_runs", "observed.unimplemented"] {
         all.floor(k, 5);
     }
     all
@@ -317,15 +328,18 @@ fn case(rng: &mut Rng, ctx: &mut Ctx) {
     let order1: Vec<usize> = idx[..n].to_vec();
     let mut order2 = order1.clone();
     rng.shuffle(&mut order2);
-    let style1 = rng.below(3);
-    let style2 = rng.below(3);
+    let style1 = rng.below(3) | if rng.chance(1, 3) { rng.urange(1, 3) as u64 * 8 } else { 0 };
+    let style2 = rng.below(3) | if rng.chance(1, 3) { rng.urange(1, 3) as u64 * 8 } else { 0 };
     let wrap = rng.u64() as u32;
     let h1 = H { log: Arc::new(Mutex::new(Vec::new())) };
     let h2 = H { log: Arc::new(Mutex::new(Vec::new())) };
     ctx.begin("setup", json!({"order": order1, "style": style1}));
     let mut r1 = build_routes(&order1, style1, wrap, &h1);
     let mut r2 = build_routes(&order2, style2, !wrap, &h2);
-    ctx.count(&format!("style.{}", style1));
+    ctx.count(&format!("style.{}", style1 & 7));
+    if style1 >> 3 != 0 {
+        ctx.count("style.converted");
+    }
     let mut ex = Exec::new();
     let k = 8;
     for _ in 0..k {
@@ -415,7 +429,7 @@ fn h2_case(rng: &mut Rng, ctx: &mut Ctx) {
     let mut idx: Vec<usize> = (0..REGISTRY.len()).collect();
     rng.shuffle(&mut idx);
     let order: Vec<usize> = idx[..n].to_vec();
-    let style = rng.below(3);
+    let style = rng.below(3) | if rng.chance(1, 3) { rng.urange(1, 3) as u64 * 8 } else { 0 };
     let via = rng.below(3); // 0 add_routes, 1 add_optional_service(None) then add_routes-equivalent, 2 add_service chain of the first + routes
     let wrap = rng.u64() as u32;
     let h = H { log: Arc::new(Mutex::new(Vec::new())) };
